@@ -608,6 +608,15 @@ func (c *EvalCtx) evalCall(e *ECall) Val {
 			}
 		}
 		return intVal(fmt.Sprint(n))
+	case "panicked":
+		// panicked(key): some call matching key on this path ended in a panic
+		key := callKeyOf(e.Args[0])
+		for _, ev := range c.events {
+			if eventMatches(ev.Key, key) && ev.Panics {
+				return boolVal("true")
+			}
+		}
+		return boolVal("false")
 	case "callarg", "callres":
 		// callarg(key, k, i): i-th argument of the k-th (0-based) call matching key
 		key := callKeyOf(e.Args[0])
